@@ -27,7 +27,8 @@ def jdd_case(draw, tier):
         keys = list(dict.fromkeys(keys + [tuple(draw(st.integers(1, 4)) for _ in range(T))]))
     w = [draw(st.integers(1, 20)) for _ in keys]
     names = draw(st.lists(st.sampled_from(NAMES), min_size=T, max_size=T, unique=True))
-    return {"kind": "jdd", "keys": [list(k) for k in keys], "w": w, "names": names}
+    return {"kind": "jdd", "keys": [list(k) for k in keys], "w": w, "names": names,
+            "dict_rot": draw(st.integers(0, 3)), "dict_rev": draw(st.booleans())}
 
 
 @st.composite
@@ -124,7 +125,16 @@ def check_jdd(case):
     # inversion
     if any(all(x > 0 for x in k) for k in keys):
         classes.add("invertible")
-        inv = call("inversion", JointDegreeFromExcess.get_joint_degree_distribution, d, list(names))
+        # the mapping handed over may list the topologies in any insertion order; the names list fixes positions
+        order = list(names)
+        k = case.get("dict_rot", 0) % len(order)
+        order = order[k:] + order[:k]
+        if case.get("dict_rev"):
+            order.reverse()
+        dd = {n: dict(d[n]) for n in order}
+        if order != list(names):
+            classes.add("dict_order_differs_from_names")
+        inv = call("inversion", JointDegreeFromExcess.get_joint_degree_distribution, dd, list(names))
         p0 = Pq.get(zero, Fraction(0))
         want = {k: p / (1 - p0) for k, p in Pq.items() if k != zero}
         cmp_dict(inv, want, "inversion")
@@ -135,7 +145,7 @@ def check_matrix(case):
     from gcmpy import JointExcessJointDegreeMatrices, JointExcessFromEjk, ToolsNames as TN
     names = case["names"]
     ejks = {}
-    for n, m in zip(names, case["mats"]):
+    for n, m in reversed(list(zip(names, case["mats"]))):  # dict order deliberately differs from the names list
         ejks[n] = {tuple(a) + tuple(b): float(v) for a, b, v in m}
     M = call("construct", JointExcessJointDegreeMatrices, {TN.EJKS: ejks, TN.EDGE_NAMES: list(names)})
     T = len(case["mats"][0][0][0])
